@@ -22,6 +22,7 @@ from ser import rat
 from props import c06 as base
 
 LEAN_MODULE = "Optyx.Props.C07"
+EXTRA_MODULES = ["Optyx.Props.PinsC07"]   # transcription anchors (harness/source_pins.py)
 THEOREMS = [
     "Optyx.Props.C07.lp_objective_value",
     "Optyx.Props.C07.scipy_objective_value",
@@ -34,6 +35,7 @@ THEOREMS = [
     "Optyx.Props.Glue.lpGlue_text",
     "Optyx.Props.Dispatch.solve_autoSelect_eq_generated",
     "Optyx.Props.Dispatch.solve_route_eq_generated",
+    "Optyx.Props.PinsC07.anchors",
 ]
 ASSUMPTIONS = [
     "solver contract (explicit hypotheses of the theorems): minimize returns fun = f'(x) for the objective it was "
